@@ -3,6 +3,7 @@ package tcp
 
 import (
 	"net"
+	"sync"
 	"time"
 
 	"github.com/samaritan-proxy/samaritan/host"
@@ -115,6 +116,62 @@ func VfC05_BufferReuse() {
 	// after the relays, two users asking for a buffer at the same time never get the same one
 	x, y := getBuffer(), getBuffer()
 	nd.Assert(&x[0] != &y[0], "two simultaneous users never get the same pooled buffer")
+}
+
+// vfYieldConn is a vfConn whose reads and writes are scheduling points (they take a lock shared by
+// the harness's connections, as a socket operation enters the kernel).
+type vfYieldConn struct {
+	vfConn
+	mu *sync.Mutex
+}
+
+func (c *vfYieldConn) Read(p []byte) (int, error) {
+	c.mu.Lock()
+	c.mu.Unlock()
+	return c.vfConn.Read(p)
+}
+
+func (c *vfYieldConn) Write(p []byte) (int, error) {
+	c.mu.Lock()
+	c.mu.Unlock()
+	return c.vfConn.Write(p)
+}
+
+// VfC05_ConcurrentRelays: after an earlier bulk transfer (one read larger than a few KiB, which
+// exercises whatever buffer sizing the relay does) has ended and returned its buffers, two relays
+// run at the same time with their reads and writes interleaving: each peer receives its own
+// stream's bytes. (Buffers are pooled: a buffer handed to two relays at once would leak one
+// connection's bytes into another.)
+func VfC05_ConcurrentRelays() {
+	nd.PoolReuse(true)
+	// the production buffer size is kept here: buffer sizing decisions depend on it
+	p := vfNewTCPProc(0)
+	var log []string
+	bulk := make([]byte, nd.Param("bulk", 3000))
+	for i := range bulk {
+		bulk[i] = 'x'
+	}
+	src0 := &vfConn{name: "src0", failAt: -1, slowWriteAt: -1, log: &log, reads: [][]byte{bulk}}
+	dst0 := &vfConn{name: "dst0", failAt: -1, slowWriteAt: -1, log: &log}
+	nd.PanicLabel("relay")
+	p.pipeConn(netutil.New(src0), netutil.New(dst0))
+	nd.Assert(len(dst0.written) == len(bulk), "the bulk transfer is delivered")
+	var mu sync.Mutex
+	var srcs, dsts [2]*vfYieldConn
+	payload := [2][]byte{nd.Bytes("a", 2), nd.Bytes("b", 2)}
+	for i := 0; i < 2; i++ {
+		srcs[i] = &vfYieldConn{vfConn: vfConn{name: "src", failAt: -1, slowWriteAt: -1, log: &log, reads: [][]byte{payload[i]}}, mu: &mu}
+		dsts[i] = &vfYieldConn{vfConn: vfConn{name: "dst", failAt: -1, slowWriteAt: -1, log: &log}, mu: &mu}
+	}
+	for i := 0; i < 2; i++ {
+		i := i
+		go func() { p.pipeConn(netutil.New(srcs[i]), netutil.New(dsts[i])) }()
+	}
+	nd.Quiesce()
+	for i := 0; i < 2; i++ {
+		nd.Assert(vfBytesEq(dsts[i].written, payload[i]), "of two relays running at the same time each peer receives its own stream's bytes")
+	}
+	nd.Cover("two-at-once")
 }
 
 // VfC05_BothDirections: HandleConn relays both directions; when one side finishes sending, the
